@@ -50,4 +50,29 @@ def fixedDigits (b : Nat) : Nat → Nat → List Nat
   | 0, _ => []
   | w + 1, n => fixedDigits b w (n / b) ++ [n % b]
 
+
+/-! ### round 3: the grammar of the parsers, written with list operations only -/
+
+/-- the digit a character denotes (either case): its index in one of the two alphabets -/
+def charDigit (c : Byte) : Option Nat :=
+  match alphabetLower.findIdx? (fun ch => BitVec.ofNat 8 ch.toNat == c) with
+  | some d => some d
+  | none => alphabetUpper.findIdx? (fun ch => BitVec.ofNat 8 ch.toNat == c)
+
+/-- `c` is a digit of base `b` -/
+def isDigitOf (b : Nat) (c : Byte) : Bool :=
+  match charDigit c with
+  | some d => decide (d < b)
+  | none => false
+
+/-- the longest prefix of `s` made of digits of base `b` -/
+def numberPrefix (b : Nat) (s : List Byte) : List Byte := s.takeWhile (isDigitOf b)
+
+/-- its positional value -/
+def prefixValue (b : Nat) (s : List Byte) : Nat := ofDigits b ((numberPrefix b s).filterMap charDigit)
+
+/-- C `isspace` / `isdigit` in the "C" locale, as sets -/
+def spaceChars : List Byte := [0x20#8, 0x09#8, 0x0A#8, 0x0B#8, 0x0C#8, 0x0D#8]
+def decimalChars : List Byte := [0x30#8, 0x31#8, 0x32#8, 0x33#8, 0x34#8, 0x35#8, 0x36#8, 0x37#8, 0x38#8, 0x39#8]
+
 end Igris.C07
